@@ -483,6 +483,23 @@ func makeOptionalPtrDecoder(typ reflect.Type) (decoder, error) {
 	if err != nil {
 		return nil, err
 	}
+	// The empty value that stands for nil must be the one the encoder writes for a
+	// nil pointer of this type (see makePtrWriter): the empty string for byte
+	// arrays, byte slices, strings, integers and big integers, the empty list for
+	// structs, other arrays and other slices. Accepting the other kind as well made
+	// two different inputs decode to the same value. Element types whose nil form
+	// is not statically known (custom encoders, interfaces, pointers) accept both.
+	nilKind, nilKindKnown := String, true
+	switch ek := etype.Kind(); {
+	case etype.Implements(encoderInterface) || reflect.PtrTo(etype).Implements(encoderInterface):
+		nilKindKnown = false
+	case ek == reflect.Array && isByte(etype.Elem()), ek == reflect.Slice && isByte(etype.Elem()):
+	case ek == reflect.Struct && !etype.AssignableTo(bigInt), ek == reflect.Array, ek == reflect.Slice:
+		nilKind = List
+	case etype.AssignableTo(bigInt), isUint(ek), ek == reflect.Bool, ek == reflect.String:
+	default:
+		nilKindKnown = false
+	}
 	dec := func(s *Stream, val reflect.Value) (err error) {
 		kind, size, err := s.Kind()
 		if err != nil || size == 0 && kind != Byte {
@@ -490,6 +507,9 @@ func makeOptionalPtrDecoder(typ reflect.Type) (decoder, error) {
 			// position must advance to the next value even though
 			// we don't read anything.
 			s.kind = -1
+			if err == nil && nilKindKnown && kind != nilKind {
+				return &decodeError{msg: fmt.Sprintf("wrong kind of empty value (got %v, want %v)", kind, nilKind), typ: typ}
+			}
 			// set the pointer to nil.
 			val.Set(reflect.Zero(typ))
 			return err
